@@ -475,3 +475,35 @@ Definition is_true (t : tv) : bool := match t with Some true => true | _ => fals
 
 Definition tv_eqb (a b : tv) : bool := option_eqb Bool.eqb a b.
 Definition chk_eval3 (i : expr * list (option Z)) (o : tv) : bool := tv_eqb (eval3 (fst i) (snd i)) o.
+
+(* ---------------------------------------------------------------- Scanner: which OFFSET/LIMIT is applied *)
+(* Scanner::get_scan_range + filtered_read_source + create_plan stage 4 (non-legacy storage), over the
+   rows that satisfy the filter, already ordered.  Without filter and ordering the window is pushed
+   into the read as scan_range_before_filter (rows = the whole table, num_rows = its length) and no
+   limit node is added; otherwise a GlobalLimitExec(skip = offset or 0, fetch = limit) is added iff
+   `limit.unwrap_or(0) > 0 || offset.is_some()`. *)
+Definition opt_firstn {A} (limit : option N) (l : list A) : list A :=
+  match limit with Some k => firstn (N.to_nat k) l | None => l end.
+Definition sql_limit {A} (limit offset : option N) (rows : list A) : list A :=
+  opt_firstn limit (skipn (N.to_nat (match offset with Some o => o | None => 0 end)) rows).
+Definition scanner_limit {A} (limit offset : option N) (has_filter has_order : bool) (rows : list A) : list A :=
+  if negb has_filter && negb has_order then
+    let n := N.of_nat (length rows) in
+    match limit, offset with
+    | None, None => rows
+    | Some l, None => window (Some (0, N.min l n)) rows
+    | None, Some o => window (Some (N.min o n, n)) rows
+    | Some l, Some o => window (Some (N.min o n, N.min (o + l) n)) rows
+    end
+  else if (0 <? match limit with Some l => l | None => 0 end) || (match offset with Some _ => true | None => false end)
+       then sql_limit limit offset rows
+       else rows.
+Definition Known_C16_limit_zero_ignored (limit offset : option N) (has_filter has_order : bool) : bool :=
+  match limit, offset with
+  | Some 0, None => has_filter || has_order
+  | _, _ => false
+  end.
+(* number of rows a scan returns, given how many rows match the filter *)
+Definition chk_limit_window (i : option N * option N * bool * bool * N) (o : N) : bool :=
+  let '(limit, offset, hf, ho, matching) := i in
+  N.of_nat (length (scanner_limit limit offset hf ho (repeat tt (N.to_nat matching)))) =? o.
